@@ -295,7 +295,10 @@ def judgeStacks (check : List Frame â†’ List Frame â†’ Bool) (tag : List Frame â
     let rec goM : List ExpSample â†’ List String
       | [] => []
       | e :: rest =>
-        let cands := outMarkerStacks threads e.pid e.tid (e.t - cfg.ref)
+        let cands0 := outMarkerStacks threads e.pid e.tid (e.t - cfg.ref)
+        -- several markers may share thread and time: show the one that starts like the expected stack
+        let headW := (e.frames.head?.map showFrame).getD ""
+        let cands := cands0.filter (fun ws => ws.head? == some headW) ++ cands0.filter (fun ws => ws.head? != some headW)
         if cands.isEmpty then s!"{tagFor e.pid}no marker for the other-event sample pid {e.pid} tid {e.tid} t {e.t}" :: goM rest
         else if cands.any (fun ws => match parseFrames ws with | some fs => check e.frames fs | none => false)
         then goM rest
